@@ -496,16 +496,16 @@ private:
 		uintptr_t uipBuffer = internal::PtrCaster::ToUInt(buffer);
 		uintptr_t uipBlock = internal::UIntMath<uintptr_t>::Ceil(uipBuffer, uipBlockAlignment);
 		size_t offset = static_cast<size_t>(uipBlock - uipBuffer);
-		MOMO_ASSERT(offset < 256);
+		MOMO_ASSERT(offset < 65536);
 		Byte* block = buffer + offset;
-		internal::MemCopyer::ToBuffer(static_cast<uint8_t>(offset),
+		internal::MemCopyer::ToBuffer(static_cast<uint16_t>(offset),
 			block + Params::blockSize);
 		return block;
 	}
 
 	void pvDeleteBlock1(Byte* block) noexcept
 	{
-		size_t offset = size_t{internal::MemCopyer::FromBuffer<uint8_t>(
+		size_t offset = size_t{internal::MemCopyer::FromBuffer<uint16_t>(
 			block + Params::blockSize)};
 		Byte* buffer = block - offset;
 		MemManagerProxy::Deallocate(GetMemManager(), buffer, pvGetBufferSize1());
@@ -513,7 +513,7 @@ private:
 
 	size_t pvGetBufferSize1() const noexcept
 	{
-		return Params::blockSize + pvGetAlignmentAddend() + 1;
+		return Params::blockSize + pvGetAlignmentAddend() + sizeof(uint16_t);
 	}
 
 	Byte* pvNewBlock()
